@@ -34,7 +34,8 @@ class Processor:
         try:
             processor = self._processor(settings, result_reporter)
         except SuiteParseError as ex:
-            reporter = result_reporting.TestSuiteParseErrorReporter(reporting_environment)
+            reporter = result_reporting.TestSuiteParseErrorReporter(reporting_environment,
+                                                                    result_reporter.exit_identifier_printer())
             return reporter.report(ex)
 
         test_case_path = test_case_processing.test_case_reference_of_source_file(settings.test_case_file_path)
